@@ -178,6 +178,18 @@ namespace pika::execution::experimental {
                     // state). Continuations can run inline, but that can only happen after the head
                     // of the queue has been swapped. In summary, there must be at least two
                     // references to the shared state at this point, so we can safely reset it early.
+                    //
+                    // The exception is a next state whose only sender was connected and whose
+                    // operation state was then destroyed without being started: nothing but
+                    // next_state refers to it anymore. Releasing it destroys it, and its own
+                    // destructor signals its successor; calling done on it would access freed
+                    // memory.
+                    if (next_state.use_count() == 1)
+                    {
+                        next_state.reset();
+                        return;
+                    }
+
                     async_rw_mutex_shared_state_base* p = next_state.get();
 
                     PIKA_ASSERT(next_state.use_count() > 1);
